@@ -101,9 +101,21 @@ def emit_table(prog, f, out_field=None, out_pred=None, extra_env=None):
         env_.update(extra_env or {})
         ev = bounded.Bound(prog, f, env_, dict((t, sv if sg else bv) for t, sg in cur_texts.items()))
         out = []
+
+        def relevant(c_):
+            # a guard speaks about the current character if it mentions it (directly or through expanded locals)
+            for x in walk_expr(q.expand(f, c_)):
+                if x.get('k') == 'var' and x.get('id') in cur_ids:
+                    return True
+                if x.get('k') in ('un', 'idx', 'call') and pe(x) in cur_texts:
+                    return True
+            return False
         for w, m_ in writes:
-            if not bounded.admitted(ev, G.of(m_), G):
+            adm = bounded.admitted3(ev, G.of(m_), G, relevant=relevant)
+            if adm is False:
                 continue
+            if adm is None:
+                raise Unresolved('whether `%s` runs for byte %d depends on a guard that is not evaluable' % (pe(w)[:60], bv))
             arg = w['a'][-1]
             a0 = strip(arg)
             while a0.get('k') == 'cast':
@@ -111,6 +123,47 @@ def emit_table(prog, f, out_field=None, out_pred=None, extra_env=None):
             if a0.get('k') == 'var' and T(f, a0.get('t')).get('arr') is not None or (a0.get('k') == 'var' and T(f, a0.get('dt') or a0.get('t')).get('n') is not None):
                 # a local buffer: filled by the snprintf admitted for this byte
                 cands = [s_ for s_ in fmts if strip(s_['a'][0]).get('k') in ('var', 'cast') and any(x.get('k') == 'var' and x.get('id') == a0['id'] for x in walk_expr(s_['a'][0])) and bounded.admitted(ev, G.of(s_), G)]
+                if not cands:
+                    # no snprintf: the buffer's initialiser updated by the element stores `buf[k] = e` admitted for this byte
+                    decl = [v for s_ in walk_stmts(f['body']) if s_.get('k') == 'decl' for v in s_['vars'] if v['id'] == a0['id']]
+                    size = T(f, a0.get('dt') or a0.get('t')).get('n')
+                    if not decl or not size:
+                        raise Unresolved('buffer `%s` written for byte %d: declaration not found' % (a0.get('n'), bv))
+                    ini = strip(decl[0].get('init') or {})
+                    buf = [None] * size
+                    if ini.get('k') == 'initlist':
+                        items = ini.get('items', [])
+                        for j in range(size):
+                            buf[j] = const_val(items[j]) if j < len(items) else 0
+                    elif ini.get('k') == 'str':
+                        for j in range(size):
+                            buf[j] = ini['b'][j] if j < len(ini['b']) else 0
+                    order = dict((id(x), i) for i, x in enumerate(G.order))
+                    sts = []
+                    for x in fn_exprs(f):
+                        if x.get('k') == 'bin' and x.get('op') == '=' and strip_lv(x['x']).get('k') == 'idx' and strip(strip_lv(x['x'])['b']).get('id') == a0['id']:
+                            sts.append(x)
+                    sts.sort(key=lambda x: order.get(id(x), 0))
+                    for x in sts:
+                        if order.get(id(x), 0) > order.get(id(m_), 1 << 30) or not bounded.admitted(ev, G.of(x), G):
+                            continue
+                        try:
+                            k_ = ev.ev(strip_lv(x['x'])['i'])
+                            val_ = ev.ev(x['y'])
+                        except bytesets.Undecidable as u:
+                            raise Unresolved('store into buffer `%s` for byte %d: %s' % (a0.get('n'), bv, u))
+                        if not 0 <= k_ < size:
+                            raise Unresolved('store into buffer `%s` at index %d outside its %d elements' % (a0.get('n'), k_, size))
+                        buf[k_] = val_ & 255
+                    for c_ in buf:
+                        if c_ is None:
+                            raise Unresolved('buffer `%s` written for byte %d holds an unset element' % (a0.get('n'), bv))
+                        if c_ == 0:
+                            break
+                        out.append(c_)
+                    else:
+                        raise Unresolved('buffer `%s` written for byte %d is not terminated' % (a0.get('n'), bv))
+                    continue
                 if len(cands) != 1:
                     raise Unresolved('buffer `%s` written for byte %d is not filled by exactly one snprintf' % (a0.get('n'), bv))
                 sp = cands[0]
